@@ -482,6 +482,74 @@ def eval_reuse(case, ctx):
         res.cleanup()
 
 
+@st.composite
+def multi_reuse_scenarios(draw):
+    """A saved run with two experiments (YAML) restarted from its saves alone: --read_assignments E1.save E2.save."""
+    sc = draw(reuse_scenarios())
+    sc["opts"] = [o for o in sc["opts"] if o not in ("--read_group", "tag:RG")]
+    sc["split"] = [draw(st.booleans()) for _ in sc["reads"]]
+    if all(sc["split"]) or not any(sc["split"]):
+        sc["split"][0] = not sc["split"][0]
+    return sc
+
+
+def eval_multi_reuse(case, ctx):
+    import json
+    from vlib import build, run
+    sc = case
+    d = ctx.scratch()
+    try:
+        paths = build.materialise(sc, os.path.join(d, "in"))
+        bams = {}
+        for name, flag in (("E1", True), ("E2", False)):
+            sub = {"chroms": sc["chroms"], "nfiles": 1,
+                   "reads": [dict(r, file=0) for r, s_ in zip(sc["reads"], sc["split"]) if s_ == flag]}
+            bams[name] = build.write_bams(sub, paths["genome"], os.path.join(d, "in"), prefix=name + "_")
+        yp = os.path.join(d, "in", "exp.yaml")
+        with open(yp, "w") as f:
+            json.dump([{"data format": "bam"}] + [{"name": n, "long read files": bams[n]} for n in ("E1", "E2")], f)
+        common = ["--reference", paths["fasta"], "--genedb", paths["gtf"], "--complete_genedb"] + list(sc["opts"])
+        out1 = os.path.join(d, "out1")
+        ctx.pipeline_runs += 1
+        if run.run_fork(common + ["--yaml", yp, "-o", out1, "--keep_tmp"], os.path.join(d, "home1"),
+                        os.path.join(d, "out1.log")) != 0:
+            ctx.note("saving_run_failed")
+            return
+        saves = [os.path.join(out1, n, "aux", n + ".save") for n in ("E1", "E2")]
+        out2 = os.path.join(d, "out2")
+        ctx.pipeline_runs += 1
+        log2 = os.path.join(d, "out2.log")
+        code = run.run_fork(common + ["--read_assignments"] + saves + ["-o", out2], os.path.join(d, "home2"), log2)
+        if code != 0:
+            r2 = pipeline.Result(d, code, out2, paths, log2)
+            ctx.violation("C15:multi-experiment-reuse-run-failed:" + r2.crash_signature().split("@")[0],
+                          {"exit": code, "log": r2.log_tail(10)}, case)
+            return
+        for i, n in enumerate(("E1", "E2")):
+            p2 = "OUT%d" % i
+            f1 = parse.sample_files(out1, n)
+            f2 = parse.sample_files(out2, p2)
+            names1 = set(x[len(n) + 1:] for x in f1)
+            names2 = set(x[len(p2) + 1:] for x in f2)
+            if names1 != names2:
+                ctx.violation("C15:multi-experiment-reuse-file-set-differs",
+                              {"experiment": n, "only_saving": sorted(names1 - names2),
+                               "only_reuse": sorted(names2 - names1)}, case)
+            for x in sorted(names1 & names2):
+                a = [l.replace(n, "@") for l in parse.strip_header(f1[n + "." + x])]
+                b = [l.replace(p2, "@") for l in parse.strip_header(f2[p2 + "." + x])]
+                if a != b:
+                    k = next((j for j, (u, v) in enumerate(zip(a, b)) if u != v), min(len(a), len(b)))
+                    ctx.violation("C15:multi-experiment-reuse-output-differs:" + x,
+                                  {"experiment": n, "file": x, "line": k, "saving": a[k] if k < len(a) else None,
+                                   "reuse": b[k] if k < len(b) else None}, case)
+        ctx.cls("multi-reuse")
+        ctx.mark_nontrivial(case_hash(case))
+    finally:
+        import shutil
+        shutil.rmtree(d, ignore_errors=True)
+
+
 def stages(tier):
     q = tier == "quick"
     return [Stage("objects", "hyp", eval_object, n=24000 if q else 800000, strategy=assignments),
@@ -489,4 +557,5 @@ def stages(tier):
             Stage("fuzz_objects", "hypfuzz", eval_object, n=6000 if q else 400000, strategy=assignments,
                   shards=4 if q else 16),
             Stage("streams", "func", eval_stream_replay, n=400 if q else 20000, run=run_machine),
-            Stage("reuse", "hyp", eval_reuse, n=48 if q else 600, strategy=reuse_scenarios)]
+            Stage("reuse", "hyp", eval_reuse, n=48 if q else 600, strategy=reuse_scenarios),
+            Stage("multi_reuse", "hyp", eval_multi_reuse, n=32 if q else 400, strategy=multi_reuse_scenarios)]
